@@ -106,6 +106,7 @@ Definition leftmost_bit (x : Z) : outcome Z :=
        end.
 
 (* ---- Curve.multiply ---------------------------------------------------------------------------
+   (the operand is reduced mod p after the infinity / e == 0 early return, commit bbdd27a)
    while i > 1:
        result += result
        if e3 & i: v = [result, result + p] else: v = [result - p, result]     (both entries are evaluated)
@@ -130,12 +131,14 @@ Definition multiply (c : curve) (P : pt) (e : Z) : outcome pt :=
   let e := if cn c =? 0 then e else e mod cn c in
   match P with
   | None => Ret None
-  | Some _ =>
+  | Some (x, y) =>
     if e =? 0 then Ret None
     else
+      (* p = self.Point(p[0] % self._p, p[1] % self._p) *)
+      do P' <- mk_point c (x mod cp c) (y mod cp c);
       let e3 := 3 * e in
       do l <- leftmost_bit e3;
-      ladder (Z.to_nat (Z.log2 e3) + 1) c P e e3 (Z.shiftr l 1) P
+      ladder (Z.to_nat (Z.log2 e3) + 1) c P' e e3 (Z.shiftr l 1) P'
   end.
 
 (* ---- Generator -------------------------------------------------------------------------------
